@@ -54,6 +54,22 @@ Theorem one_reader_per_split_httpapi : forall runners states, (1 <= runners)%nat
 Proof. exact one_reader_httpapi. Qed.
 Print Assumptions one_reader_per_split_httpapi.
 
+(* source runner: assignment rounds go through a one-slot channel the event loop consumes; a HandleAssignSplits
+   call is acknowledged only when its round is in the slot. For every interleaving of calls and loop turns the
+   acknowledged rounds are the delivered ones plus at most the one in the slot, in order - none is dropped or
+   duplicated; after the loop's next turn they are equal. *)
+Theorem one_reader_per_split_runner : forall steps,
+  acked (a_run steps) = delivered (a_run steps) ++ slot_list (a_run steps) /\
+  (slot (a_run steps) = None -> concat (delivered (a_run steps)) = concat (acked (a_run steps))) /\
+  delivered (a_run (steps ++ [ATake])) = acked (a_run (steps ++ [ATake])).
+Proof. exact assignment_rounds_fifo. Qed.
+Print Assumptions one_reader_per_split_runner.
+
+Example assignment_rounds_example :
+  let st := a_run [AOffer [(1, 0)]; AOffer [(2, 0)]; ATake; AOffer [(2, 0)]; AOffer [(3, 5)]; ATake; ATake] in
+  acked st = [[(1, 0)]; [(2, 0)]] /\ delivered st = [[(1, 0)]; [(2, 0)]] /\ slot st = None.
+Proof. vm_compute. repeat split. Qed.
+
 (* one AssignSplits call of the Kinesis splitter lists every pending shard exactly once (and, by
    restore_resumes_positions_kinesis, under a runner index < n) *)
 Theorem one_reader_per_split_kinesis_call : forall n cs shards, 1 <= n ->
@@ -122,10 +138,7 @@ Theorem children_after_parents_restore_refuted :
   ~ no_loss (trk_ d24b_before) /\
   (mem 1 (fin d24b_after) = true /\ ~ In 3 (hist d24b_after) /\ ~ In 4 (hist d24b_after)) /\
   (In 7 (hist d24b_after2) /\ mem 3 (fin d24b_after2) = false /\ mem 4 (fin d24b_after2) = false).
-Proof.
-  destruct d24b_lost as [H1 [H2 [H3 [H4 _]]]]. destruct d24b_child_without_parents as [H5 [H6 [H7 _]]].
-  repeat split; assumption.
-Qed.
+Proof. exact d24b_refutation. Qed.
 Print Assumptions children_after_parents_restore_refuted.
 
 (* ---- non-vacuity ---- *)
